@@ -254,6 +254,11 @@ def focused(tier):
                    {"A": klass([ARR], [REQ], prio=1), "B": klass([[1.0, 2.0]], [REQ], prio=0)}, K=2, features=["ps", "priorities"]))
     out.append(cfg("ps cap=2 two classes same priority", fam, [node(c=2, ps=True)],
                    {"A": klass([ARR], [REQ]), "B": klass([[1.0, 2.0]], [REQ])}, K=2, features=["ps"]))
+    # waiting room of a capacity-limited PS node: finite queue capacity (rejections) and reneging from the waiting line
+    out.append(single("ps cap=1 queue capacity 1 (rejections)", fam, c=1, K=K + 1, arr=[0.25, 0.5, 1.0], srv=[1.0, 2.0, 0.5], nodekw={"ps": True, "cap": 1}, D=5 if tier == "quick" else 8, features=["ps", "capacity"]))
+    out.append(single("ps cap=2 R=2 queue capacity 1", fam, c=2, K=K + 1, arr=[0.25, 0.5, 1.0], srv=[1.0, 2.0, 0.5], nodekw={"ps": True, "ps_threshold": 2, "cap": 1}, D=5 if tier == "quick" else 8, features=["ps", "capacity"]))
+    out.append(single("ps cap=1 reneging from the waiting line", fam, c=1, K=K, arr=[0.25, 0.5], srv=[1.0, 2.0], nodekw={"ps": True}, classkw={"renege": [[0.5, 1.5]]}, D=5 if tier == "quick" else 8, features=["ps", "reneging"]))
+    out.append(single("ps cap=2 reneging from the waiting line", fam, c=2, K=K + 1, arr=[0.25, 0.5, 1.0], srv=[2.0, 1.0, 0.5], nodekw={"ps": True}, classkw={"renege": [[0.5, 1.5]]}, D=5 if tier == "quick" else 7, features=["ps", "reneging"]))
     return out
 
 
